@@ -425,3 +425,12 @@ func (c *Conn) SetWriteDeadline(t time.Time) error {
 }
 
 var _ net.Conn = (*Conn)(nil)
+
+// SetInboundWindow changes the capacity of the inbound direction (this end's receive window):
+// with a small window and a stalled reader the other side's writes block.
+func (c *Conn) SetInboundWindow(n int) {
+	c.in.mu.Lock()
+	c.in.window = n
+	c.in.broadcastLocked()
+	c.in.mu.Unlock()
+}
